@@ -28,15 +28,15 @@ EXTENDS AdminOracle, TLC, Json
 
 CONSTANTS Brokers, ItemErrCodes, SKvs, EmitCases
 
-VARIABLES op, kv, own, itemv, bfault,     \* the case
+VARIABLES op, kv, own, itemv, bfault, all, gerr,   \* the case
           pc, todo, anyErr, seen,         \* loop state: brokers still to contact, `errs`, results gathered
           reqs, res
 
-vars == <<op, kv, own, itemv, bfault, pc, todo, anyErr, seen, reqs, res>>
+vars == <<op, kv, own, itemv, bfault, all, gerr, pc, todo, anyErr, seen, reqs, res>>
 
-SKvQuick == [DeleteRecords |-> {2, 5}, ListConsumerGroupOffsets |-> {0, 1, 5}, DescribeConsumerGroups |-> {1, 4},
+SKvQuick == [DeleteRecords |-> {2, 5}, ListConsumerGroupOffsets |-> {0, 1, 6, 2, 3, 5}, DescribeConsumerGroups |-> {1, 4},
              DeleteConsumerGroup |-> {4, 5}, DescribeLogDirs |-> {3, 5}]
-SKvFull == [DeleteRecords |-> {2, 3, 4, 5}, ListConsumerGroupOffsets |-> {0, 1, 2, 3, 4, 5},
+SKvFull == [DeleteRecords |-> {2, 3, 4, 5}, ListConsumerGroupOffsets |-> {0, 1, 6, 2, 3, 4, 5},
             DescribeConsumerGroups |-> {0, 1, 2, 3, 4, 5}, DeleteConsumerGroup |-> {4, 5}, DescribeLogDirs |-> {3, 4, 5}]
 
 ItemErrQuick == {3}
@@ -46,7 +46,8 @@ ItemsOf(o) == IF o = "DeleteConsumerGroup" THEN {0} ELSE {0, 1, 2}
 IncOps == {"DeleteRecords", "DeleteConsumerGroup"}     \* answers keyed by topic / group that can miss the key
 
 \* version selection of admin.go (868-872; the others always send v0)
-ReqVersion(o, k) == IF o = "ListConsumerGroupOffsets" THEN (IF k >= 1 THEN 2 ELSE 1) ELSE 0
+ReqVersion(o, k) == IF o = "ListConsumerGroupOffsets" THEN (IF AtLeast(k, 1) THEN 2 ELSE 1) ELSE 0
+GroupErr == 30      \* GROUP_AUTHORIZATION_FAILED
 
 Init ==
   /\ op \in SpreadOps
@@ -60,6 +61,10 @@ Init ==
   /\ Cardinality({b \in Brokers : bfault[b] # "none"}) <= 1
   /\ \A b \in Brokers : bfault[b] # "none" => \E i \in DOMAIN own : own[i] = b
   /\ \A b \in Brokers : bfault[b] = "inc" => op \in IncOps
+  \* ListConsumerGroupOffsets: nil partition map (needs request v2, i.e. release >= 0.10.2), group-level verdict
+  /\ all \in (IF op = "ListConsumerGroupOffsets" /\ AtLeast(kv, 1) THEN BOOLEAN ELSE {FALSE})
+  /\ gerr \in (IF op = "ListConsumerGroupOffsets" THEN {0, GroupErr} ELSE {0})
+  /\ gerr # 0 => (\A i \in DOMAIN own : itemv[i] = 0) /\ (\A b \in Brokers : bfault[b] = "none")
   /\ pc = "plan" /\ todo = {} /\ anyErr = FALSE /\ seen = {}
   /\ reqs = <<>> /\ res = [cls |-> "-", code |-> 0, reported |-> {}, filed |-> {}]
 
@@ -67,7 +72,7 @@ Plan ==
   /\ pc = "plan"
   /\ todo' = {own[i] : i \in DOMAIN own}
   /\ pc' = "send"
-  /\ UNCHANGED <<op, kv, own, itemv, bfault, anyErr, seen, reqs, res>>
+  /\ UNCHANGED <<op, kv, own, itemv, bfault, all, gerr, anyErr, seen, reqs, res>>
 
 ItemsAt(b) == {i \in DOMAIN own : own[i] = b}
 Bad(S) == {i \in S : itemv[i] # 0}
@@ -96,14 +101,16 @@ Send(b) ==
                /\ UNCHANGED <<anyErr, seen>>
                /\ IF ans = "conn"
                   THEN Ret([cls |-> "other", code |-> 0, reported |-> {}, filed |-> {}])
-                  ELSE Ret([cls |-> "nil", code |-> 0, reported |-> Bad(its), filed |-> {}])
+                  ELSE \* the coordinator's response as it is (v2: a group-level error at the top level,
+                       \* v1: on every listed partition - the code always lists or, from v2 on, sends null)
+                       Ret([cls |-> "nil", code |-> 0, reported |-> (IF gerr # 0 THEN its ELSE Bad(its)), filed |-> {}])
           [] op = "DeleteConsumerGroup" ->
                /\ UNCHANGED <<anyErr, seen>>
                /\ IF ans = "conn" THEN Ret([cls |-> "other", code |-> 0, reported |-> {}, filed |-> {}])
                   ELSE IF ans = "inc" THEN Ret([cls |-> "incomplete", code |-> 0, reported |-> {}, filed |-> {}])
                   ELSE IF Bad(its) # {} THEN Ret([cls |-> "kerr", code |-> itemv[0], reported |-> {}, filed |-> {}])
                   ELSE Ret([cls |-> "nil", code |-> 0, reported |-> {}, filed |-> {}])
-  /\ UNCHANGED <<op, kv, own, itemv, bfault>>
+  /\ UNCHANGED <<op, kv, own, itemv, bfault, all, gerr>>
 
 Finish ==
   /\ pc = "send" /\ todo = {}
@@ -115,13 +122,13 @@ Finish ==
           Ret([cls |-> (IF anyErr THEN "other" ELSE "nil"), code |-> 0, reported |-> Bad(seen),
                filed |-> {<<i, i>> : i \in seen}])
      ELSE Ret([cls |-> "nil", code |-> 0, reported |-> Bad(seen), filed |-> {}])
-  /\ UNCHANGED <<op, kv, own, itemv, bfault, todo, anyErr, seen, reqs>>
+  /\ UNCHANGED <<op, kv, own, itemv, bfault, all, gerr, todo, anyErr, seen, reqs>>
 
 Next == Plan \/ (\E b \in Brokers : Send(b)) \/ Finish
 Spec == Init /\ [][Next]_vars
 
 -----------------------------------------------------------------------------
-Case == [op |-> op, kv |-> kv, own |-> own, itemv |-> itemv, bfault |-> bfault]
+Case == [op |-> op, kv |-> kv, own |-> own, itemv |-> itemv, bfault |-> bfault, all |-> all, gerr |-> gerr]
 
 TypeOK == pc \in {"plan", "send", "done"} /\ todo \subseteq Brokers /\ Len(reqs) <= Cardinality(Brokers)
 ReqClauses == reqs # <<>> => SpreadReqViol(Case, reqs) = {}
@@ -134,5 +141,5 @@ FunPairs(f) == LET RECURSIVE F(_)
 Emit ==
   (EmitCases /\ pc = "plan") =>
      PrintT(<<"CASE", ToJson([fam |-> "spread", op |-> op, kv |-> kv, own |-> FunPairs(own), itemv |-> FunPairs(itemv),
-                              bfault |-> FunPairs(bfault)])>>)
+                              bfault |-> FunPairs(bfault), all |-> all, gerr |-> gerr])>>)
 =============================================================================
